@@ -583,7 +583,10 @@ def run_session(ctx, budget_s):
     rng = ctx.rng
     base = ctx.seed * 1000003 + (ctx.worker or 0) * 100003
     nh = 0
-    while ctx.time_left(budget_s) > 0 and nh < ctx.scale(60, 6000):
+    import time as _t
+    # wall-clock only bounds the amount of work (never a verdict); keep a minimum of work when start-up on a busy box ate the budget
+    t_end = _t.time() + max(15 if ctx.quick else 120, ctx.time_left(budget_s))
+    while _t.time() < t_end and nh < ctx.scale(60, 6000):
         nh += 1
         acts = gen_session_history(rng)
         nodes = rng.choice([1, 2, 2])
@@ -592,7 +595,7 @@ def run_session(ctx, budget_s):
         hseed = base + nh * 101
         for kind in SESSION_KINDS:
             for pos in range(len(acts) + 1):
-                if ctx.time_left(budget_s) < 0:
+                if _t.time() > t_end:
                     break
                 seed = hseed + pos
                 gc.collect()            # garbage of earlier worlds must not be finalised inside this one (reproducibility from the seed)
@@ -695,11 +698,11 @@ def run_line_preemption(ctx):
                         sys.settrace(None)
                 ta = threading.Thread(target=sender, daemon=True)
                 ta.start()
-                ta.join(10)
+                ta.join(60)
                 if not state['fired']:
                     ctx.count("preemption_lines_not_reached")
                     continue
-                tb.join(10)
+                tb.join(60)
                 if ta.is_alive() or tb.is_alive():
                     from vlib.run import Inconclusive
                     raise Inconclusive("line-preemption harness thread did not finish (line %d)" % ln)
